@@ -116,6 +116,16 @@ def main (args : List String) : IO UInt32 := do
     return 0
   | corpusPath :: orderS :: opts =>
     let order := orderS.toNat?.getD 1
+    -- `--prune` tokens go through the model of `ParsePruning`
+    let pruneToks := ((kv opts "prune" "").splitOn "|").filter (· ≠ "")
+    let thr : Nat → Nat ← match parsePruning pruneToks order with
+      | .ok f => pure f
+      | .error .badThreshold => do IO.println "error bad-threshold"; return 0
+      | .error .tooMany => do IO.println "error prune-count"; return 0
+      | .error .decreasing => do IO.println "error prune-order"; return 0
+    if kv opts "parseonly" "0" == "1" then
+      IO.println ("ok " ++ " ".intercalate ((List.range order).map fun i => toString (thr i)))
+      return 0
     let bytes ← IO.FS.readBinFile corpusPath
     let (lines, rest) := corpusLines bytes.toList
     let skip := kv opts "skip" "0" == "1"
@@ -137,10 +147,6 @@ def main (args : List String) : IO UInt32 := do
       IO.println (errStr .specialSymbol)
       return 0
     -- options
-    let thrL := ((kv opts "prune" "").splitOn ",").filterMap (·.toNat?)
-    let thrArr := thrL.toArray
-    let thr : Nat → Nat := fun i =>
-      if thrArr.size == 0 then 0 else if i < thrArr.size then thrArr[i]! else thrArr[thrArr.size - 1]!
     let limitPath := kv opts "limit" ""
     let mut exclArr : Array Bool := #[]
     if limitPath != "" then
